@@ -69,3 +69,90 @@ class GrossRange(Case):
 
 def cases():
     return [GrossRange(suspect=s, seq=q) for s in (False, True) for q in ("tuple", "list")]
+
+
+class ValidRange(Case):
+    """axds.valid_range_test.  params: kind in {'float','datetime','int'}, lo, hi in {False, True}
+    (bound given / None), si, ei: start_inclusive / end_inclusive"""
+
+    module = "ioos_qc.axds"
+    function = "valid_range_test"
+    index_offsets = (0,)
+    props = {
+        "post.flag_by_membership": ("C03",),
+        "no-raise": ("C01", "C03"),
+        "post.missing_is_missing": ("C02",),
+        "post.missing_only_if_needed": ("C02",),
+    }
+
+    def declare(self, mk):
+        e = Env()
+        e.n = mk.length("n")
+        k = self.params["kind"]
+        if k == "float":
+            e.x = mk.series("x", e.n)
+            e.lo = mk.real("lo") if self.params["lo"] else None
+            e.hi = mk.real("hi") if self.params["hi"] else None
+        elif k == "int":
+            e.x = mk.intseries("x", e.n)
+            e.lo = mk.integer("lo") if self.params["lo"] else None
+            e.hi = mk.integer("hi") if self.params["hi"] else None
+        else:
+            e.x = mk.dtseries("x", e.n)
+            e.lo = mk.dt("lo") if self.params["lo"] else None
+            e.hi = mk.dt("hi") if self.params["hi"] else None
+        return e
+
+    def call(self, mod, e):
+        return mod.valid_range_test(e.x, (e.lo, e.hi), start_inclusive=self.params["si"], end_inclusive=self.params["ei"])
+
+    def regions(self, e):
+        return {"integer-dtype-with-open-bound": self.params["kind"] == "int" and not (self.params["lo"] and self.params["hi"])}
+
+    def post(self, e, res, k):
+        x, miss = e.x.val(k), e.x.nan(k)
+        bad = []
+        if self.params["lo"]:
+            lo = pval(e.lo)
+            bad.append(alg.lt(x, lo) if self.params["si"] else alg.le(x, lo))
+        if self.params["hi"]:
+            hi = pval(e.hi)
+            bad.append(alg.gt(x, hi) if self.params["ei"] else alg.ge(x, hi))
+        spec = case_of((miss, MISS), (alg.or_(*bad) if bad else False, F), default=G)
+        fl = res.flag(k)
+        d = {
+            "flag_by_membership": alg.eq(fl, spec),
+            "missing_is_missing": alg.implies(miss, alg.eq(fl, MISS)),
+            "missing_only_if_needed": alg.implies(alg.eq(fl, MISS), miss),
+        }
+        d.update(basic_shape_clauses(res, k, e.n))
+        return d
+
+    def post_global(self, e, res):
+        return {"one_flag_per_element": alg.eq(res.n, e.n) if res.is_array else False}
+
+    def grid(self, tier, rng):
+        k = self.params["kind"]
+        alpha = (-2, -H, 0, 1, 3, None) if k == "float" else ((-2, 0, 1, 3) if k == "int" else (-2, 0, 1, 3, None))
+        bounds = [(0, 1), (1, 0), (0, 0), (-2, 3), (1, 3)]
+        for xs in series_grid(3 if tier == "quick" else 4, alphabet=alpha):
+            for lo, hi in bounds:
+                v = {"n": len(xs), "x": list(xs)}
+                if self.params["lo"]:
+                    v["lo"] = lo
+                if self.params["hi"]:
+                    v["hi"] = hi
+                yield v
+
+
+def cases():  # noqa: F811
+    cs = [GrossRange(suspect=s, seq=q) for s in (False, True) for q in ("tuple", "list")]
+    for kind in ("float", "datetime", "int"):
+        for lo in (True, False):
+            for hi in (True, False):
+                for si in (True, False):
+                    for ei in (True, False):
+                        if (not lo and not si) or (not hi and ei):
+                            continue  # inclusivity of an absent bound is immaterial: one setting suffices
+                        cs.append(ValidRange(kind=kind, lo=lo, hi=hi, si=si, ei=ei))
+    return cs
